@@ -200,12 +200,12 @@ class BaseMonitor:
                 if binfo is not None: s.events.append(binfo + (what,))
                 elif self.record_events: s.events.append('rule:' + what)
             # success consuming
-            s1 = st.copy(); s1.heap[inp.addr]['m_current'] = Cur(self.adv(p, 'pos')); s1.trace.append((label, 'succ+')); ev(s1, 'T')
+            s1 = st.copy(); s1.heap[inp.addr]['m_current'] = Cur(self.adv(p, 'pos')); s1.trace.append((label, 'succ+')); ev(s1, 'T+' if binfo is not None else 'T')
             self.after_oracle(ex, s1, inp, 'succ+')
             yield True, s1
             # success empty (identical to the consuming success once the cursor is already ADVANCED / DIRTY)
             if self.adv(p, 'pos') != p or self.distinguish_empty:
-                s2 = st.copy(); s2.trace.append((label, 'succ0')); ev(s2, 'T')
+                s2 = st.copy(); s2.trace.append((label, 'succ0')); ev(s2, 'T0' if binfo is not None else 'T')
                 self.after_oracle(ex, s2, inp, 'succ0')
                 yield True, s2
             # failure (unless the callee's own analysis showed it never returns false)
